@@ -125,6 +125,7 @@ func (g *graphMemoizer) AddTriples(ctx context.Context, ts []*triple.Triple) err
 	g.memT = make(map[string][]*triple.Triple)
 	g.memE = make(map[string]bool)
 	g.mu.Unlock()
+	verifYield("write.cleared")
 
 	return g.g.AddTriples(ctx, ts)
 }
@@ -140,6 +141,7 @@ func (g *graphMemoizer) RemoveTriples(ctx context.Context, ts []*triple.Triple) 
 	g.memT = make(map[string][]*triple.Triple)
 	g.memE = make(map[string]bool)
 	g.mu.Unlock()
+	verifYield("write.cleared")
 
 	return g.g.RemoveTriples(ctx, ts)
 }
@@ -190,6 +192,7 @@ func (g *graphMemoizer) Objects(ctx context.Context, s *node.Node, p *predicate.
 	}
 
 	// Query and memoize the results.
+	verifYield("read.miss")
 	c := make(chan *triple.Object)
 	defer close(objs)
 
@@ -214,6 +217,7 @@ func (g *graphMemoizer) Objects(ctx context.Context, s *node.Node, p *predicate.
 		}
 	}
 	wg.Wait()
+	verifYield("read.fill")
 	g.mu.Lock()
 	g.memO[k] = mobjs
 	g.mu.Unlock()
@@ -259,6 +263,7 @@ func (g *graphMemoizer) Subjects(ctx context.Context, p *predicate.Predicate, o 
 	}
 
 	// Query and memoize the results.
+	verifYield("read.miss")
 	c := make(chan *node.Node)
 	defer close(subs)
 
@@ -283,6 +288,7 @@ func (g *graphMemoizer) Subjects(ctx context.Context, p *predicate.Predicate, o 
 		}
 	}
 	wg.Wait()
+	verifYield("read.fill")
 	g.mu.Lock()
 	g.memN[k] = msubs
 	g.mu.Unlock()
@@ -318,6 +324,7 @@ func (g *graphMemoizer) PredicatesForSubject(ctx context.Context, s *node.Node, 
 	}
 
 	// Query and memoize the results.
+	verifYield("read.miss")
 	c := make(chan *predicate.Predicate)
 	defer close(prds)
 
@@ -342,6 +349,7 @@ func (g *graphMemoizer) PredicatesForSubject(ctx context.Context, s *node.Node, 
 		}
 	}
 	wg.Wait()
+	verifYield("read.fill")
 	g.mu.Lock()
 	g.memP[k] = mpreds
 	g.mu.Unlock()
@@ -377,6 +385,7 @@ func (g *graphMemoizer) PredicatesForObject(ctx context.Context, o *triple.Objec
 	}
 
 	// Query and memoize the results.
+	verifYield("read.miss")
 	c := make(chan *predicate.Predicate)
 	defer close(prds)
 
@@ -401,6 +410,7 @@ func (g *graphMemoizer) PredicatesForObject(ctx context.Context, o *triple.Objec
 		}
 	}
 	wg.Wait()
+	verifYield("read.fill")
 	g.mu.Lock()
 	g.memP[k] = mpreds
 	g.mu.Unlock()
@@ -436,6 +446,7 @@ func (g *graphMemoizer) PredicatesForSubjectAndObject(ctx context.Context, s *no
 	}
 
 	// Query and memoize the results.
+	verifYield("read.miss")
 	c := make(chan *predicate.Predicate)
 	defer close(prds)
 
@@ -460,6 +471,7 @@ func (g *graphMemoizer) PredicatesForSubjectAndObject(ctx context.Context, s *no
 		}
 	}
 	wg.Wait()
+	verifYield("read.fill")
 	g.mu.Lock()
 	g.memP[k] = mpreds
 	g.mu.Unlock()
@@ -495,6 +507,7 @@ func (g *graphMemoizer) TriplesForSubject(ctx context.Context, s *node.Node, lo 
 	}
 
 	// Query and memoize the results.
+	verifYield("read.miss")
 	c := make(chan *triple.Triple)
 	defer close(trpls)
 
@@ -519,6 +532,7 @@ func (g *graphMemoizer) TriplesForSubject(ctx context.Context, s *node.Node, lo 
 		}
 	}
 	wg.Wait()
+	verifYield("read.fill")
 	g.mu.Lock()
 	g.memT[k] = mts
 	g.mu.Unlock()
@@ -554,6 +568,7 @@ func (g *graphMemoizer) TriplesForPredicate(ctx context.Context, p *predicate.Pr
 	}
 
 	// Query and memoize the results.
+	verifYield("read.miss")
 	c := make(chan *triple.Triple)
 	defer close(trpls)
 
@@ -578,6 +593,7 @@ func (g *graphMemoizer) TriplesForPredicate(ctx context.Context, p *predicate.Pr
 		}
 	}
 	wg.Wait()
+	verifYield("read.fill")
 	g.mu.Lock()
 	g.memT[k] = mts
 	g.mu.Unlock()
@@ -613,6 +629,7 @@ func (g *graphMemoizer) TriplesForObject(ctx context.Context, o *triple.Object, 
 	}
 
 	// Query and memoize the results.
+	verifYield("read.miss")
 	c := make(chan *triple.Triple)
 	defer close(trpls)
 
@@ -637,6 +654,7 @@ func (g *graphMemoizer) TriplesForObject(ctx context.Context, o *triple.Object, 
 		}
 	}
 	wg.Wait()
+	verifYield("read.fill")
 	g.mu.Lock()
 	g.memT[k] = mts
 	g.mu.Unlock()
@@ -672,6 +690,7 @@ func (g *graphMemoizer) TriplesForSubjectAndPredicate(ctx context.Context, s *no
 	}
 
 	// Query and memoize the results.
+	verifYield("read.miss")
 	c := make(chan *triple.Triple)
 	defer close(trpls)
 
@@ -696,6 +715,7 @@ func (g *graphMemoizer) TriplesForSubjectAndPredicate(ctx context.Context, s *no
 		}
 	}
 	wg.Wait()
+	verifYield("read.fill")
 	g.mu.Lock()
 	g.memT[k] = mts
 	g.mu.Unlock()
@@ -731,6 +751,7 @@ func (g *graphMemoizer) TriplesForPredicateAndObject(ctx context.Context, p *pre
 	}
 
 	// Query and memoize the results.
+	verifYield("read.miss")
 	c := make(chan *triple.Triple)
 	defer close(trpls)
 
@@ -755,6 +776,7 @@ func (g *graphMemoizer) TriplesForPredicateAndObject(ctx context.Context, p *pre
 		}
 	}
 	wg.Wait()
+	verifYield("read.fill")
 	g.mu.Lock()
 	g.memT[k] = mts
 	g.mu.Unlock()
@@ -773,7 +795,9 @@ func (g *graphMemoizer) Exist(ctx context.Context, t *triple.Triple) (bool, erro
 	}
 
 	// Query and memoize the results.
+	verifYield("read.miss")
 	b, err := g.g.Exist(ctx, t)
+	verifYield("read.fill")
 	if err == nil {
 		g.mu.Lock()
 		g.memE[k] = b
@@ -805,6 +829,7 @@ func (g *graphMemoizer) Triples(ctx context.Context, lo *storage.LookupOptions, 
 	}
 
 	// Query and memoize the results.
+	verifYield("read.miss")
 	c := make(chan *triple.Triple)
 	defer close(trpls)
 
@@ -829,6 +854,7 @@ func (g *graphMemoizer) Triples(ctx context.Context, lo *storage.LookupOptions, 
 		}
 	}
 	wg.Wait()
+	verifYield("read.fill")
 	g.mu.Lock()
 	g.memT[k] = mts
 	g.mu.Unlock()
